@@ -5,7 +5,7 @@
    header, np.frombuffer, reshape with NumberOfComponents, regrouping per cell type with np.unique).
    Values are integers; floats are carried as their bit patterns, so "bit-identical" is equality. *)
 From Coq Require Import NArith ZArith List Bool.
-From FC Require Import Model.Codec Proofs.CodecP.
+From FC Require Import Model.Codec Proofs.CodecP Model.VtuFile Proofs.VtuFileP.
 Import ListNotations.
 Local Open Scope N_scope.
 
@@ -71,6 +71,39 @@ Theorem C13_csv_structure_roundtrip : forall names rows,
   read_table (write_table names rows) = Some (names, rows).
 Proof. exact csv_structure_roundtrip. Qed.
 Print Assumptions C13_csv_structure_roundtrip.
+
+(* ---- the whole file (Model/VtuFile.v): VTUWriter.write followed by VTUReader, composed from the parts above.
+   For every data set whose arrays fit their types (wf_vdata: values within the range of their numeric type, rows of the
+   declared number of components, byte counts below 2^64, distinct cell types with a uniform corner count per type),
+   reading the written file succeeds and hands out: the points and every point field exactly as given; the cells per cell
+   type (ascending type id; every type that has cells, with exactly its cells in the mesh's order; nothing else); and for
+   every cell field, per cell type, exactly the rows given for that type. *)
+Theorem C13_vtu_file_write_read : forall bo d, wf_vdata d ->
+  exists r, read_vtu bo (write_vtu bo d) = Some r /\
+    r_points r = v_points d /\ r_pdata r = v_pdata d /\
+    ascending (map fst (r_groups r)) /\
+    (forall t cs, In (t, cs) (v_groups d) -> cs <> [] -> In (t, cs) (r_groups r)) /\
+    (forall t cs, In (t, cs) (r_groups r) -> In (t, cs) (v_groups d) /\ cs <> []) /\
+    r_cdata r = map (fun nc => (fst nc, (fst (fst (snd nc)), snd (fst (snd nc)), regrouped (v_groups d) (snd (snd nc)))))
+                    (v_cdata d).
+Proof. exact vtu_file_write_read. Qed.
+Print Assumptions C13_vtu_file_write_read.
+
+(* ... where `regrouped`, what the reader makes of a cell-data array of the written file, is per cell type the rows
+   given for that type: ascending type ids, every type with cells carries exactly its rows, and nothing else occurs *)
+Theorem C13_cell_data_of_file : forall (g : list (N * list (list N))) (per : list (list (list Z))),
+  NoDup (map fst g) -> Forall2 (fun gr rs => length rs = length (snd gr)) g per ->
+  ascending (map fst (regrouped g per)) /\
+  (forall t cs rs, In ((t, cs), rs) (combine g per) -> cs <> [] -> In (t, rs) (regrouped g per)) /\
+  (forall t rs, In (t, rs) (regrouped g per) -> exists cs, In ((t, cs), rs) (combine g per) /\ cs <> []).
+Proof. exact regrouped_correct. Qed.
+Print Assumptions C13_cell_data_of_file.
+
+(* the hypotheses are satisfiable: a hybrid mesh (one quad, two triangles, Int32 connectivity) with a Float64 point
+   vector field given by bit patterns and an Int16 cell field *)
+Example C13_file_nonvacuous : wf_vdata example_vdata /\
+  option_map r_groups (read_vtu LE (write_vtu LE example_vdata)) = Some [(5, [[1; 4; 5]; [1; 5; 2]]); (9, [[0; 1; 2; 3]])].
+Proof. split; [exact example_vdata_wf | vm_compute; reflexivity]. Qed.
 
 (* concrete instance: an Int16 vector field with extreme values (3 rows x 3 components), a Float64 scalar given by bit
    patterns, and a hybrid mesh written as quads then triangles and read back as triangles (5) then quads (9) *)
